@@ -24,6 +24,10 @@ def leaf():
         ("IntNeg", "(-1000..-1)"), ("IntSemi", "(5..MAX)"), ("IntUnc", ""), ("IntI64", "(-9223372036854775808..9223372036854775807)"),
         ("IntHalf", "(0..9223372036854775807)"), ("IntExt", "(0..255,...)"), ("IntExtNeg", "(-100..100,...)"),
         ("IntExtOne", "(7..7,...)"), ("IntOdd", "(3..300)"), ("IntNegSemi", "(-5..MAX)"),
+        # the boundaries of the 32/64-bit cascades (Rust type, protobuf scalar type)
+        ("IntI32", "(-2147483648..2147483647)"), ("IntI32Hi", "(-1..2147483647)"), ("IntI32HiP", "(-1..2147483648)"),
+        ("IntI32Lo", "(-2147483648..0)"), ("IntI32LoM", "(-2147483649..0)"), ("IntU32P", "(0..4294967296)"),
+        ("IntU31", "(0..2147483647)"), ("IntI16Hi", "(-1..32767)"), ("IntI16HiP", "(-1..32768)"),
     ]
     for n, c in ints:
         d.append(f"{n} ::= INTEGER {c}")
@@ -31,7 +35,9 @@ def leaf():
     d.append("Nothing ::= NULL")
     sizes = [("", ""), ("Fix3", "(SIZE(3))"), ("R0to5", "(SIZE(0..5))"), ("R2to4", "(SIZE(2..4))"),
              ("Ext", "(SIZE(1..3,...))"), ("FixExt", "(SIZE(2,...))"), ("Zero", "(SIZE(0))"),
-             ("Big", "(SIZE(0..70000))"), ("Mid", "(SIZE(0..60000))"), ("Lb", "(SIZE(1..MAX))")]
+             ("Big", "(SIZE(0..70000))"), ("Mid", "(SIZE(0..60000))"), ("Lb", "(SIZE(1..MAX))"),
+             # upper bound >= 64K with a lower bound > 0: ub and ub - lb need a different number of bits
+             ("LbBig", "(SIZE(1..65536))"), ("LbBig2", "(SIZE(3..131074))")]
     for cs in ["UTF8String", "IA5String", "NumericString", "PrintableString", "VisibleString"]:
         for sn, sc in sizes:
             d.append(f"{cs[:-6]}{sn or 'Any'} ::= {cs} {sc}")
